@@ -57,7 +57,8 @@ func (mf *memorySegmentFile) close() (err error) {
 }
 
 func (mf *memorySegmentFile) get() (io.Reader, int, error) {
-	data := mf.file.Bytes()
+	// 段滚动出播放列表后缓冲区会归还并被新段复用，读者必须持有副本
+	data := append([]byte(nil), mf.file.Bytes()...)
 	return bytes.NewReader(data), len(data), nil
 }
 
